@@ -175,12 +175,18 @@ impl Snapshot {
 	/// (building one just for this would unregister its sequence number from
 	/// the snapshot tracker when the temporary is dropped).
 	fn collect_iter_state_from(core: &Arc<Core>) -> Result<IterState> {
+		// LOCK ORDER: active_memtable -> level_manifest -> immutable_memtables, the
+		// same order as rotate_memtable() and flush_immutable_to_sst(). Taking the
+		// immutable list before the manifest deadlocks against a flush that holds
+		// the manifest write lock and waits for the immutable list. All three
+		// guards are held together below, so the captured state is consistent
+		// whatever the order of acquisition.
 		let active = guardian::ArcRwLockReadGuardian::take(Arc::clone(&core.active_memtable))?;
-		let immutable =
-			guardian::ArcRwLockReadGuardian::take(Arc::clone(&core.immutable_memtables))?;
+		let manifest = guardian::ArcRwLockReadGuardian::take(Arc::clone(&core.level_manifest))?;
 		#[cfg(surrealkv_verif)]
 		crate::verif::yp_held("iter:holding_memtable_locks");
-		let manifest = guardian::ArcRwLockReadGuardian::take(Arc::clone(&core.level_manifest))?;
+		let immutable =
+			guardian::ArcRwLockReadGuardian::take(Arc::clone(&core.immutable_memtables))?;
 
 		Ok(IterState {
 			active: active.clone(),
